@@ -202,7 +202,7 @@ class Path:
             # instantiation is switched off so that non-theorems give "unknown" quickly instead of searching a model
             self._full.set("smt.mbqi", False)
             self._full.set("auto_config", False)
-            self._full.set("rlimit", 3_000_000)
+            self._full.set("rlimit", 600_000)
             self._full.set("smt.arith.nl.rounds", 64)
             self._ground = z3.Solver()
             self._ground.set("timeout", min(self.timeout_ms, 1000))
